@@ -218,6 +218,27 @@ def run(ctx):
                                    "library": e_full, "independent": e_ref}))
         except Exception as ex:
             spec_fail.append((f"{kind}.optimize", "optimisation with a non-default iteration count runs", {"error": repr(ex)[:300]}))
+    # ---- hypothesis of `jit_transparent` (Props/C18.lean), checked on the classes: `optimize` is jitted with the trial object as a
+    # static argument, so objects that compare equal share one executable; equality (and hashing consistent with it) must look at
+    # every attribute the optimisation reads
+    import dataclasses
+    eq_checked = 0
+    for kind, cls, base in (("rhf", wavefunctions.rhf, dict(norb=4, nelec=(2, 2))), ("uhf", wavefunctions.uhf, dict(norb=4, nelec=(2, 1)))):
+        try:
+            a = cls(**base)
+            for fname, alt in (("norb", 5), ("nelec", (1, 1)), ("n_opt_iter", a.n_opt_iter + 7)):
+                b = dataclasses.replace(a, **{fname: alt})
+                eq_checked += 1
+                if a == b:
+                    spec_fail.append((f"{kind}.optimize", "a trial object asked for one SCF iteration performs one Roothaan step (its own iteration count, not that of an earlier object)",
+                                      {"reason": f"objects that differ in `{fname}` compare equal, so jax.jit reuses the executable traced for the other one",
+                                       "a": repr(a), "b": repr(b)}))
+                c = dataclasses.replace(a)
+                if not (a == c and hash(a) == hash(c)):
+                    spec_fail.append((f"{kind}.optimize", "equal trial objects hash equally (jit cache lookup)", {"a": repr(a)}))
+        except Exception as ex:
+            spec_fail.append((f"{kind}.optimize", "trial objects can be copied and compared", {"error": repr(ex)[:300]}))
+    dist["static_identity_fields_checked"] = eq_checked
     # ---- differentiating through the optimisation when Fock levels coincide EXACTLY (two identical non-interacting
     # fragments; repeated one-body levels): the derivative of the optimised density must be finite
     for kind in ("rhf", "uhf"):
